@@ -405,6 +405,7 @@ Proof.
   destruct (negb (has_grant GClientCredentials (c_grants c))); [discriminate|].
   destruct (validate_binding (w_cfg w) c (t_bind r) no_opts) eqn:Ev; [discriminate|].
   destruct (negb (are_scopes_allowed (c_scopes c) (cf_scopes (w_cfg w)) (t_scope r))); [discriminate|].
+  destruct (negb (validate_resources (w_cfg w) (cf_resources (w_cfg w)) (t_resources r))); [discriminate|].
   destruct (hg_result (t_hg r)); [discriminate|].
   destruct (make_token n c GClientCredentials) as [tv tid].
   cbn in H. inversion H; subst st' t; clear H.
@@ -436,6 +437,7 @@ Proof.
   destruct (validate_binding (w_cfg w) c (t_bind r) (code_opts s)) eqn:Ev; [discriminate|].
   destruct (negb (seqb (p_redirect (a_params s)) (t_redirect r))); [discriminate|].
   destruct (validate_pkce (w_cfg w) (t_verifier r) s); [discriminate|].
+  destruct (negb (validate_resources (w_cfg w) (a_granted_res s) (t_resources r))); [discriminate|].
   destruct (negb (contains_all_scopes (a_granted s) (t_scope r))); [discriminate|].
   destruct (hg_result (t_hg r)); [discriminate|].
   destruct (make_token n c GAuthorizationCode) as [tv tid].
@@ -462,6 +464,7 @@ Proof.
    destruct (geb now (a_expires s)); [discriminate|];
    destruct (validate_binding (w_cfg w) c (t_bind r) no_opts) eqn:Ev; [discriminate|];
    destruct (t_ba r); cbn in H; try discriminate;
+   destruct (negb (validate_resources (w_cfg w) (a_granted_res s) (t_resources r))); [discriminate|];
    destruct (negb (contains_all_scopes (a_granted s) (t_scope r))); [discriminate|];
    destruct (hg_result (t_hg r)); [discriminate|];
    destruct (make_token n c GCiba) as [tv tid];
@@ -627,6 +630,7 @@ Proof.
   destruct (geb now (g_expires g)); [discriminate|].
   destruct (refresh_binding (w_cfg w) c (t_bind r) g) eqn:Eb; [discriminate|].
   destruct (negb (contains_all_scopes (g_granted g) (t_scope r))); [discriminate|].
+  destruct (negb (validate_resources (w_cfg w) (g_granted_res g) (t_resources r))); [discriminate|].
   destruct (hg_result (t_hg r)); [discriminate|].
   destruct (make_token n c GRefreshToken) as [tv tid].
   cbn in H. inversion H; subst st' t; clear H. cbn.
@@ -679,10 +683,10 @@ Definition ex_conf : client :=
 Definition ex_world : world := mkWorld ex_cfg [ex_public; ex_conf].
 (* a grant bound to ex_key and ex_cert, and a session whose code announces both *)
 Definition ex_grant : gsession :=
-  mkGSession (mint 0 KGrantId) ex_at ex_rt 300%Z 1000%Z 0 GAuthorizationCode "alice" 3 "openid profile" "openid profile" ex_key ex_cert.
+  mkGSession (mint 0 KGrantId) ex_at ex_rt 300%Z 1000%Z 0 GAuthorizationCode "alice" 3 "openid profile" "openid profile" ex_key ex_cert [] [].
 Definition ex_session : asession :=
   mkASession (mint 1 KSessId) 3 "alice" 0 0 0 ex_code "openid profile" 0 ex_cert 60%Z 0 ""
-    (mkParams 0 "https://c3.example/cb" "" "code" "openid profile" "" "" PkEmpty "" ex_key "" 0 "").
+    (mkParams 0 "https://c3.example/cb" "" "code" "openid profile" "" "" PkEmpty "" ex_key "" 0 "" []) [].
 Definition ex_store : store := mkStore [] [ex_session] [ex_grant].
 Definition ex_treq (cr : cred) (b : bind_in) : treq :=
-  mkTReq cr b "" ex_code "https://c3.example/cb" ex_rt PkEmpty 0 HgOk BaApprove.
+  mkTReq cr b "" ex_code "https://c3.example/cb" ex_rt PkEmpty 0 HgOk BaApprove [].
